@@ -35,9 +35,12 @@ THEOREMS = [
     'Pyiga.Props.C01.entry_eq_full_sum', 'Pyiga.Props.C01.entry_zero_without_common_support',
     'Pyiga.Props.C01.entry1_eq_full_sum', 'Pyiga.Props.C01.support_test_strictness_unobservable',
     'Pyiga.Props.C01.entry_indexing', 'Pyiga.Props.C01.assemble_vector_order',
+    'Pyiga.Props.C01.gen_assign_slots_once', 'Pyiga.Props.C01.linear_expr_vanishes', 'Pyiga.Props.C01.linear_expr_additive',
+    'Pyiga.Props.C01.entry_eq_full_sum_expr',
 ]
 MODULES = ['Pyiga.Model.Index', 'Pyiga.Model.Layout', 'Pyiga.Model.Assembler', 'Pyiga.Proofs.Index',
-           'Pyiga.Proofs.Layout', 'Pyiga.Proofs.AsmSum', 'Pyiga.Proofs.AsmIndex', 'Pyiga.Props.C01']
+           'Pyiga.Proofs.Layout', 'Pyiga.Proofs.AsmSum', 'Pyiga.Proofs.AsmIndex', 'Pyiga.Proofs.LayoutAssign',
+           'Pyiga.Model.KernelExpr', 'Pyiga.Proofs.KernelExpr', 'Pyiga.Props.C01']
 
 EPS = 2.0 ** -53
 
@@ -748,6 +751,80 @@ def layout_stream(ctx):
     return len(req)
 
 
+def linear_stream(ctx):
+    """hypothesis of entry_eq_full_sum decided syntactically: every kernel expression the corpus' forms have after
+    VForm.finalize (basis-function-scoped local variables inlined) is sent to the driver, which decides
+    KExpr.IsLinearIn for every basis function (theorem entry_eq_full_sum_expr then applies).  No C compiler."""
+    from pyiga import vform
+    fn_ids = {}
+    slots = {}
+
+    def slot(key):
+        return slots.setdefault(key, len(slots))
+
+    def conv(e):
+        if isinstance(e, vform.ConstExpr):
+            return ['c', frac(float(e.value))]
+        if isinstance(e, vform.GaussWeightExpr):
+            return ['f', str(slot(('gw', e.axis)))]
+        if isinstance(e, vform.PartialDerivExpr):
+            assert not e.physical
+            return ['p', str(bf_index[e.basisfun.name]), str(sum(int(d) * 7 ** k for k, d in enumerate(e.D)))]
+        if isinstance(e, vform.VarRefExpr):
+            var = e.var
+            if var.expr is not None and var.scope == vform.Scope.BASISFUN:
+                return conv(e.get_underlying_expr())
+            return ['f', str(slot((var.name, e.I)))]
+        if isinstance(e, vform.NegExpr):
+            return ['n'] + conv(e.children[0])
+        if isinstance(e, vform.BuiltinFuncExpr):
+            return ['F', str(fn_ids.setdefault(e.funcname, len(fn_ids)))] + conv(e.children[0])
+        if isinstance(e, vform.ScalarOperExpr):
+            return [e.oper] + conv(e.children[0]) + conv(e.children[1])
+        raise TypeError('kernel expression of unexpected type %s' % type(e).__name__)
+
+    vfs = []
+    for name, F in FORMS.items():
+        dim, arity, problem, bfuns, two_space, inputs = F[:6]
+        if isinstance(problem, tuple):
+            continue
+        case = make_case(name, 12345, 'quick')
+        kvs = (case['kvs0'], case['kvs1']) if two_space else case['kvs0']
+        vfs.append((problem, lambda problem=problem, kvs=kvs, case=case, bfuns=bfuns: vform.parse_vf(
+            problem, kvs, args=dict(case['args']), bfuns=bfuns, boundary=bool(case.get('boundary')))))
+    for d in (2, 3):
+        for nm, mk in (('mass_vf', vform.mass_vf), ('stiffness_vf', vform.stiffness_vf), ('heat_st_vf', vform.heat_st_vf),
+                       ('wave_st_vf', vform.wave_st_vf), ('divdiv_vf', vform.divdiv_vf), ('L2functional_vf', vform.L2functional_vf)):
+            vfs.append(('%s(%d)' % (nm, d), lambda mk=mk, d=d: mk(d)))
+    req, meta = [], []
+    for desc, mk in vfs:
+        try:
+            vf = mk()
+            vf.finalize()
+            bf_index = {bf.name: k for k, bf in enumerate(vf.basis_funs)}
+            scal = []
+            for ex in vf.exprs:
+                scal += [ex] if ex.is_scalar() else list(ex)
+            for k, ex in enumerate(scal):
+                toks = conv(ex)
+                for b in range(len(vf.basis_funs)):
+                    req.append('islin %d %s' % (b, ' '.join(toks)))
+                    meta.append((desc, k, b, len(toks)))
+        except Exception as ex:
+            ctx.count('linear stream: conversion failed (%s)' % type(ex).__name__)
+            ctx.notes.append('linear stream: %s: %s: %s' % (desc, type(ex).__name__, str(ex)[:120]))
+    got = ctx.model('drv_c01', req)
+    bad = [(m, g) for m, g in zip(meta, got) if g != '1']
+    ctx.count('kernel expressions decided linear', len(req) - len(bad))
+    ctx.extra['largest kernel expression (tokens)'] = max([m[3] for m in meta] + [0])
+    for (m, g) in bad[:3]:
+        ctx.violation('islin', 'kernel expression %d of form `%s` is not syntactically linear in basis function %d (driver: %s): the linearity hypothesis of entry_eq_full_sum is not established for it'
+                      % (m[1], m[0], m[2], g), {'form': m[0], 'stream': 'linear (drv_c01)'}, False)
+    ctx.obligation('linearity hypothesis: %d kernel expressions x basis functions of %d forms decided IsLinearIn by the driver' % (len(req), len(vfs)),
+                   not bad and len(req) > 0, '%d not linear' % len(bad))
+    return len(req)
+
+
 def check_pxi(ctx):
     """genericasm.pxi (compiled into assemble_tools_cy) is the rendering of the template the model transliterates"""
     from pyiga.codegen import cython as cg
@@ -809,7 +886,7 @@ def run(ctx):
                 'knots, B-spline or NURBS perturbed-identity geometry; every entry vs numpy oracle, 200 no-common-support pairs exactly 0.0, 8-30 entries re-derived by the Lean model '
                 'from per-node integrand tables; non-trivial = instance with >= 2 spans on some axis' % len(FORMS))
     check_pxi(ctx)
-    nlay = layout_stream(ctx)
+    nlay = layout_stream(ctx) + linear_stream(ctx)
     results = join()
     sp10 = results.pop(); jobs.pop()
     req, meta = [], []
